@@ -1,7 +1,8 @@
 -------------------------- MODULE Trace_Reader --------------------------
 (* Direction B for the reader-side properties: one case = one file given  *)
 (* to the real DiffXReader and everything it did (records, how it ended). *)
-(* case: [id, mode, file, cmap, recs, end, line, col, msgok, prefixok]    *)
+(* case: [id, mode, file, cmap, recs, end, line, col, msgok, prefixok,    *)
+(*        base, baseend, ins, dom = [end, closed]]                        *)
 (*   end \in {"done", "parse", "other:<Exception>", "timeout"}            *)
 (* mode "exact"    (C03 C04 C10 C11 C12 C17): Reader.tla decides records,  *)
 (*                 acceptance and the range of the error line             *)
@@ -40,11 +41,13 @@ RecsClause(exp, got) ==
   IF d = 0 THEN "" ELSE IF d > Len(exp) THEN "extra-record" ELSE IF d > Len(got) THEN "missing-record"
   ELSE "record-" \o RecField(exp[d], got[d]) \o "-differs"
 
+LibraryFamilies == {"ok", "parse", "order", "content", "option", "unknown_option", "diffx"}
 Contract(c) ==
-  IF c.end = "done" THEN ""
-  ELSE IF c.end # "parse" THEN "raised-" \o c.end
-  ELSE IF c.line < 0 \/ c.line > PhysLines(c.file) THEN "error-line-outside-input"
-  ELSE IF ~c.msgok THEN "message-disagrees-with-line-column"
+  IF c.end \notin {"done", "parse"} THEN "raised-" \o c.end
+  ELSE IF c.end = "parse" /\ (c.line < 0 \/ c.line > PhysLines(c.file)) THEN "error-line-outside-input"
+  ELSE IF c.end = "parse" /\ ~c.msgok THEN "message-disagrees-with-line-column"
+  ELSE IF c.dom.end \notin LibraryFamilies THEN "object-model-load-raised-" \o c.dom.end
+  ELSE IF ~c.dom.closed THEN "stream-not-closed-after-load(" \o c.dom.end \o ")"
   ELSE ""
 
 Exact(c) ==
